@@ -1,5 +1,5 @@
 #!/usr/bin/env python3
-"""merges findings.d/*.json (drafts written by the component builders) into known_findings.json - run by hand, never by ./check"""
+"""merges findings.d/*.json (written by the component builders; ./check reads them too) into known_findings.json (status finding / fixed) and observations.json (status observation), and regenerates the table of DESIGN.md §6 - run by hand, never by ./check"""
 import json, os
 V = os.path.dirname(os.path.abspath(__file__))
 items = []
